@@ -187,9 +187,9 @@ struct filler<1>
     {
         for (auto i = std::get<0>(lower); static_cast<std::size_t>(std::get<0>(upper) - i) >= bin_width; i += bin_width)
         {
-            hist(i / bin_width) = 0;
+            hist(i / bin_width) += 0; // create the bin, keep what was accumulated before
         }
-        hist(std::get<0>(upper) / bin_width) = 0;
+        hist(std::get<0>(upper) / bin_width) += 0;
     }
 };
 
